@@ -706,6 +706,615 @@ theorem shrErr_sS : ∀ n, shrErrN n = false → shrErrN (sSN n) = false := by
         simpa using this
       simp [this]
 
+
+/-! ## The mutable object refines the two rewrites -/
+
+/-- once `expandable` has been computed, `_expanded` tells whether the tag is in Def-expand form -/
+def InvT (t : Tag) : Prop := t.cached = true → t.expanded = (t.base == .defExpand)
+def InvN (n : Node) : Prop := ∀ t ∈ allTags n, InvT t
+
+/-- a well-formed object: no cycle, flags consistent (true of every freshly parsed `HedString`) -/
+def WF (o : Obj) : Prop := o.cyclic = false ∧ ∀ k ∈ o.kids, InvN k
+
+omit hg in
+theorem inv_kids {ks : List Node} (h : InvN (.grp ks)) : ∀ k ∈ ks, InvN k :=
+  fun k hk t ht => h t (by simp only [allTags]; exact mem_allTagsL.2 ⟨k, hk, ht⟩)
+
+omit hg in
+theorem inv_grp {ks : List Node} (h : ∀ k ∈ ks, InvN k) : InvN (.grp ks) := by
+  intro t ht
+  simp only [allTags] at ht
+  obtain ⟨k, hk, hkt⟩ := mem_allTagsL.1 ht
+  exact h k hk t hkt
+
+omit hg in
+theorem inv_of_erased {cs : List Node} (h : eraseL cs = cs) : ∀ k ∈ cs, InvN k := by
+  intro k hk t ht
+  have : t ∈ allTagsL (eraseL cs) := by rw [h]; exact mem_allTagsL.2 ⟨k, hk, ht⟩
+  obtain ⟨u, _, rfl⟩ := mem_allTagsL_eraseL.1 this
+  intro hc; simp [Tag.erase] at hc
+
+omit hg in
+theorem wf_fresh (ks : List Node) : WF { kids := eraseL ks } :=
+  ⟨rfl, inv_of_erased (eraseL_eraseL ks)⟩
+
+omit hg in
+theorem touch_facts (t : Tag) (hi : InvT t) :
+    (touch t).expanded = (t.base == .defExpand) ∧ (touch t).cached = true ∧ (touch t).erase = t.erase ∧
+    (touch t).base = t.base := by
+  unfold touch
+  cases hc : t.cached
+  · simp [Tag.erase]
+  · simp [hi hc, hc]
+
+omit hg in
+theorem expansion_erase (t : Tag) : expansion fold dd t.erase = expansion fold dd t := rfl
+
+theorem expTag_ref (g : Bool) (t : Tag) (hi : InvT t) :
+    erase (expTag fold true dd g t) = sETag fold dd t.erase ∧ cycTag fold dd g t = false ∧
+    intTag fold dd g t = false ∧ InvN (expTag fold true dd g t) := by
+  obtain ⟨hne, hok⟩ := good_expansion fold dd hg t
+  obtain ⟨h1, h2, h3, h4⟩ := touch_facts t hi
+  have hit : InvN (.tag t) := by intro u hu; simp only [allTags, List.mem_singleton] at hu; subst hu; exact hi
+  have hse : sETag fold dd t.erase = if t.base = .def_ then
+      match expansion fold dd t with
+      | .ok cs => .grp (.tag { t.erase with base := .defExpand } :: cs)
+      | _ => .tag t.erase
+    else .tag t.erase := rfl
+  rw [hse]
+  by_cases hcand : candidate g t = true
+  · cases he : expansion fold dd t with
+    | ok cs =>
+      obtain ⟨hc1, hc2⟩ := hok cs he
+      by_cases hde : t.base = .defExpand
+      · have hexp : expTag fold true dd g t = .tag (touch t) := by
+          unfold expTag; simp [hcand, he, h1, hde]
+        have hnd : ¬ t.base = .def_ := by simp [hde]
+        refine ⟨?_, ?_, ?_, ?_⟩
+        · rw [hexp]; simp [erase, h3, hnd]
+        · unfold cycTag; simp [h1, hde]
+        · unfold intTag; simp [he]
+        · rw [hexp]
+          intro u hu; simp only [allTags, List.mem_singleton] at hu; subst hu
+          intro _; rw [h1, h4]
+      · have hd : t.base = .def_ := by
+          simp only [candidate, Bool.or_eq_true, beq_iff_eq, Bool.and_eq_true] at hcand
+          rcases hcand with h | h
+          · exact h
+          · exact absurd h.1 hde
+        have hexp : expTag fold true dd g t = .grp (.tag (toDE true (touch t)) :: cs) := by
+          unfold expTag; simp [hcand, he, h1, hd]
+        have hte : (toDE true (touch t)).erase = { t.erase with base := Base.defExpand } := by
+          rw [← h3]; rfl
+        refine ⟨?_, ?_, ?_, ?_⟩
+        · rw [hexp]; simp [erase, eraseL, hc2, hte, hd]
+        · unfold cycTag; simp [hd]
+        · unfold intTag; simp [he]
+        · rw [hexp]
+          apply inv_grp
+          intro k hk
+          rcases List.mem_cons.1 hk with rfl | hk
+          · intro u hu; simp only [allTags, List.mem_singleton] at hu; subst hu
+            intro _; simp [toDE]
+          · exact inv_of_erased hc2 k hk
+    | noEntry =>
+      have hexp : expTag fold true dd g t = .tag t := by unfold expTag; simp [he]
+      refine ⟨by rw [hexp]; simp [erase], by unfold cycTag; simp [he], by unfold intTag; simp [he],
+        by rw [hexp]; exact hit⟩
+    | mismatch b =>
+      have hexp : expTag fold true dd g t = .tag t := by unfold expTag; simp [he]
+      refine ⟨by rw [hexp]; simp [erase], by unfold cycTag; simp [he], by unfold intTag; simp [he],
+        by rw [hexp]; exact hit⟩
+    | internal => exact absurd he hne
+  · have hnd : ¬ t.base = .def_ := by
+      intro h; apply hcand; simp [candidate, h]
+    have hexp : expTag fold true dd g t = .tag t := by unfold expTag; simp [hcand]
+    refine ⟨by rw [hexp]; simp [erase, hnd], by unfold cycTag; simp [hcand], by unfold intTag; simp [hcand],
+      by rw [hexp]; exact hit⟩
+
+theorem exp_ref : ∀ n, ∀ g, InvN n →
+    erase (expN fold true dd g n) = sEN fold dd (erase n) ∧ anyTag (cycTag fold dd) g n = false ∧
+    anyTag (intTag fold dd) g n = false ∧ InvN (expN fold true dd g n) := by
+  apply node_ind
+  · intro t g hi
+    have := expTag_ref fold hg g t (hi t (by simp [allTags]))
+    simpa [expN, anyTag, erase, sEN] using this
+  · intro ks ih g hi
+    have hk := inv_kids hi
+    refine ⟨?_, ?_, ?_, ?_⟩
+    · simp only [expN, erase, sEN, eraseL_map, expL_map, sEL_map, List.map_map, Node.grp.injEq]
+      exact List.map_congr_left (fun k hx => by simpa using (ih k hx true (hk k hx)).1)
+    · simp only [anyTag, anyTagL_any, List.any_eq_false]
+      intro k hx; simp [(ih k hx true (hk k hx)).2.1]
+    · simp only [anyTag, anyTagL_any, List.any_eq_false]
+      intro k hx; simp [(ih k hx true (hk k hx)).2.2.1]
+    · simp only [expN, expL_map]
+      apply inv_grp
+      intro k hx
+      obtain ⟨m, hm, rfl⟩ := List.mem_map.1 hx
+      exact (ih m hm true (hk m hm)).2.2.2
+
+omit hg in
+theorem tagsOf_eraseL (ks : List Node) : tagsOf (eraseL ks) = (tagsOf ks).map Tag.erase := by
+  induction ks with
+  | nil => simp [eraseL, tagsOf]
+  | cons k r ih => cases k <;> simp [eraseL, erase, tagsOf, ih]
+
+omit hg in
+theorem deTags_eraseL (ks : List Node) : deTags (eraseL ks) = (deTags ks).map Tag.erase := by
+  simp only [deTags, tagsOf_eraseL, List.filter_map]
+  rfl
+
+omit hg in
+theorem shr_ref : ∀ n, erase (shrN true n) = sSN (erase n) ∧ shrErrN (erase n) = shrErrN n ∧
+    (InvN n → InvN (shrN true n)) := by
+  apply node_ind
+  · intro t; simp [shrN, erase, sSN, shrErrN]
+  · intro ks ih
+    refine ⟨?_, ?_, ?_⟩
+    · simp only [shrN, erase, sSN, deTags_eraseL]
+      cases deTags ks with
+      | nil =>
+        simp only [List.map_nil, erase, shrL_map, eraseL_map, sSL_map, List.map_map, Node.grp.injEq]
+        exact List.map_congr_left (fun k hx => by simpa using (ih k hx).1)
+      | cons t r => simp [erase, toDef, Tag.erase]
+    · simp only [erase, shrErrN, deTags_eraseL, List.length_map]
+      rw [shrErrL_any, shrErrL_any, eraseL_map, List.any_map]
+      congr 1
+      exact any_congr' (fun k hx => by simpa using (ih k hx).2.1)
+    · intro hi
+      have hk := inv_kids hi
+      simp only [shrN]
+      cases deTags ks with
+      | nil =>
+        simp only [shrL_map]
+        apply inv_grp
+        intro k hx
+        obtain ⟨m, hm, rfl⟩ := List.mem_map.1 hx
+        exact (ih m hm).2.2 (hk m hm)
+      | cons t r =>
+        intro u hu; simp only [allTags, List.mem_singleton] at hu; subst hu
+        intro _; simp [toDef]
+
+/-- `expand_defs` on a well-formed object succeeds, creates no cycle, and is the expansion rewrite -/
+theorem expand_ok (o : Obj) (hw : WF o) :
+    ∃ o', expandG fold true dd o = .ok o' ∧ WF o' ∧ eraseL o'.kids = sEL fold dd (eraseL o.kids) := by
+  obtain ⟨hc, hk⟩ := hw
+  have hcy : anyTagL (cycTag fold dd) false o.kids = false := by
+    rw [anyTagL_any]; simp only [List.any_eq_false]
+    intro k hx; simp [(exp_ref fold hg k false (hk k hx)).2.1]
+  have hin : anyTagL (intTag fold dd) false o.kids = false := by
+    rw [anyTagL_any]; simp only [List.any_eq_false]
+    intro k hx; simp [(exp_ref fold hg k false (hk k hx)).2.2.1]
+  refine ⟨{ kids := expL fold true dd false o.kids, cyclic := false }, ?_, ⟨rfl, ?_⟩, ?_⟩
+  · simp [expandG, hc, hcy, hin]
+  · intro k hx
+    rw [expL_map] at hx
+    obtain ⟨m, hm, rfl⟩ := List.mem_map.1 hx
+    exact (exp_ref fold hg m false (hk m hm)).2.2.2
+  · simp only [eraseL_map, expL_map, sEL_map, List.map_map]
+    exact List.map_congr_left (fun k hx => by simpa using (exp_ref fold hg k false (hk k hx)).1)
+
+omit hg in
+theorem shrErrL_eraseL (ks : List Node) : shrErrL (eraseL ks) = shrErrL ks := by
+  rw [shrErrL_any, shrErrL_any, eraseL_map, List.any_map]
+  exact any_congr' (fun k _ => by simpa using (shr_ref k).2.1)
+
+omit hg in
+/-- `shrink_defs` on a well-formed object without a doubly tagged group succeeds and is the shrink rewrite -/
+theorem shrink_ok (o : Obj) (hw : WF o) (hs : shrErrL o.kids = false) :
+    ∃ o', shrinkG true o = .ok o' ∧ WF o' ∧ eraseL o'.kids = sSL (eraseL o.kids) := by
+  obtain ⟨hc, hk⟩ := hw
+  refine ⟨{ o with kids := shrL true o.kids }, ?_, ⟨hc, ?_⟩, ?_⟩
+  · simp [shrinkG, hc, hs]
+  · intro k hx
+    simp only [shrL_map] at hx
+    obtain ⟨m, hm, rfl⟩ := List.mem_map.1 hx
+    exact (shr_ref m).2.2 (hk m hm)
+  · simp only [eraseL_map, shrL_map, sSL_map, List.map_map]
+    exact List.map_congr_left (fun k _ => by simpa using (shr_ref k).1)
+
+
+/-! ## Printed form -/
+
+omit hg in
+theorem strL_cc (a b : Node) (r : List Node) : strL (a :: b :: r) = str a ++ (',' :: strL (b :: r)) := by
+  simp only [strL]
+
+omit hg in
+theorem strL_map_congr {f : Node → Node} : ∀ {ks : List Node}, (∀ k ∈ ks, str (f k) = str k) →
+    strL (ks.map f) = strL ks
+  | [], _ => rfl
+  | [a], h => by simp [strL, h a]
+  | a :: b :: r, h => by
+    have ih := strL_map_congr (f := f) (ks := b :: r) (fun k hk => h k (List.mem_cons_of_mem _ hk))
+    simp only [List.map_cons] at ih ⊢
+    rw [strL_cc, strL_cc, h a (by simp), ih]
+
+omit hg in
+theorem str_erase : ∀ n, str (erase n) = str n := by
+  apply node_ind
+  · intro t; rfl
+  · intro ks ih
+    simp only [erase, str, eraseL_map]
+    rw [strL_map_congr ih]
+
+omit hg in
+theorem strL_eraseL (ks : List Node) : strL (eraseL ks) = strL ks := by
+  rw [eraseL_map]; exact strL_map_congr (fun k _ => str_erase k)
+
+/-- the printout of the expansion, described on the printout side: a Def tag with an expansion prints as
+`(Def-expand/…,content…)`, everything else prints as before -/
+def substTag (dd : DefDict) (t : Tag) : Str :=
+  if t.base = .def_ then
+    match expansion fold dd t with
+    | .ok cs => '(' :: (strL (.tag { t with base := .defExpand } :: cs) ++ [')'])
+    | _ => t.str
+  else t.str
+
+mutual
+def substN (dd : DefDict) : Node → Str
+  | .tag t => substTag fold dd t
+  | .grp ks => '(' :: (substL dd ks ++ [')'])
+def substL (dd : DefDict) : List Node → Str
+  | [] => []
+  | k :: ks => match ks with
+    | [] => substN dd k
+    | _ :: _ => substN dd k ++ (',' :: substL dd ks)
 end
+
+omit hg in
+theorem substL_cc (a b : Node) (r : List Node) :
+    substL fold dd (a :: b :: r) = substN fold dd a ++ (',' :: substL fold dd (b :: r)) := by
+  simp only [substL]
+
+omit hg in
+theorem strL_sEL : ∀ {ks : List Node}, (∀ k ∈ ks, str (sEN fold dd k) = substN fold dd k) →
+    strL (sEL fold dd ks) = substL fold dd ks
+  | [], _ => by simp [sEL, strL, substL]
+  | [a], h => by simp [sEL, strL, substL, h a]
+  | a :: b :: r, h => by
+    have ih := strL_sEL (ks := b :: r) (fun k hk => h k (List.mem_cons_of_mem _ hk))
+    simp only [sEL] at ih ⊢
+    rw [strL_cc, substL_cc, h a (by simp), ih]
+
+omit hg in
+theorem str_sE : ∀ n, str (sEN fold dd n) = substN fold dd n := by
+  apply node_ind
+  · intro t
+    simp only [sEN, sETag, substN, substTag]
+    by_cases hb : t.base = .def_
+    · simp only [hb, if_true]
+      cases expansion fold dd t <;> simp [str]
+    · simp [hb, str]
+  · intro ks ih
+    simp only [sEN, str, substN]
+    rw [strL_sEL fold ih]
+
+omit hg in
+theorem substL_congr : ∀ {ks : List Node}, (∀ k ∈ ks, substN fold dd (erase k) = substN fold dd k) →
+    substL fold dd (eraseL ks) = substL fold dd ks
+  | [], _ => by simp [eraseL, substL]
+  | [a], h => by simp [eraseL, substL, h a]
+  | a :: b :: r, h => by
+    have ih := substL_congr (ks := b :: r) (fun k hk => h k (List.mem_cons_of_mem _ hk))
+    simp only [eraseL] at ih ⊢
+    rw [substL_cc, substL_cc, h a (by simp), ih]
+
+omit hg in
+theorem subst_erase : ∀ n, substN fold dd (erase n) = substN fold dd n := by
+  apply node_ind
+  · intro t; rfl
+  · intro ks ih
+    simp only [erase, substN]
+    rw [substL_congr fold ih]
+
+/-! ## The property theorems -/
+
+/-- **expand_spec**: on a well-formed object `expand_defs` succeeds, leaves no cycle, and its result is — up to
+the two bookkeeping fields — the original tree with every `Def/n[/v]` whose `n` is defined and whose value
+presence matches replaced by `(Def-expand/n[/v], content[# := v])` and nothing else changed; so the printout is
+the original printout with exactly those tags replaced. -/
+theorem expand_spec (o : Obj) (hw : WF o) :
+    ∃ o', expandG fold true dd o = .ok o' ∧ WF o' ∧
+      eraseL o'.kids = sEL fold dd (eraseL o.kids) ∧
+      render o' = .ok (substL fold dd o.kids) := by
+  obtain ⟨o', h1, h2, h3⟩ := expand_ok fold hg o hw
+  refine ⟨o', h1, h2, h3, ?_⟩
+  simp only [render, h2.1, Bool.false_eq_true, if_false]
+  rw [← strL_eraseL, h3, strL_sEL fold (fun k _ => str_sE fold k),
+    substL_congr fold (fun k _ => subst_erase fold k)]
+
+theorem sEL_idem (ks : List Node) : sEL fold dd (sEL fold dd ks) = sEL fold dd ks := by
+  simp only [sEL_map, List.map_map]
+  exact List.map_congr_left (fun k _ => by simpa using sE_idem fold hg k)
+
+theorem sSL_sEL (ks : List Node) : sSL (sEL fold dd ks) = sSL ks := by
+  simp only [sEL_map, sSL_map, List.map_map]
+  exact List.map_congr_left (fun k _ => by simpa using sS_sE fold hg k)
+
+omit hg in
+theorem sSL_idem (ks : List Node) : sSL (sSL ks) = sSL ks := by
+  simp only [sSL_map, List.map_map]
+  exact List.map_congr_left (fun k _ => by simpa using sS_idem k)
+
+theorem shrErrL_sEL (ks : List Node) : shrErrL (sEL fold dd ks) = shrErrL ks := by
+  rw [shrErrL_any, shrErrL_any, sEL_map, List.any_map]
+  exact any_congr' (fun k _ => by simpa using shrErr_sE fold hg k)
+
+omit hg in
+theorem shrErrL_sSL (ks : List Node) (h : shrErrL ks = false) : shrErrL (sSL ks) = false := by
+  rw [shrErrL_any] at h ⊢
+  rw [sSL_map, List.any_map]
+  simp only [List.any_eq_false] at h ⊢
+  intro k hk
+  have := shrErr_sS k (by simpa using h k hk)
+  simpa using this
+
+omit hg in
+theorem render_of_erase {a b : Obj} (ha : a.cyclic = false) (hb : b.cyclic = false)
+    (h : eraseL a.kids = eraseL b.kids) : render a = render b := by
+  simp only [render, ha, hb, Bool.false_eq_true, if_false]
+  rw [← strL_eraseL a.kids, h, strL_eraseL]
+
+/-- **expand_idem**: expanding twice equals expanding once (no failure, same tree up to bookkeeping, same printout). -/
+theorem expand_idem (o : Obj) (hw : WF o) :
+    ∃ o1 o2, expandG fold true dd o = .ok o1 ∧ expandG fold true dd o1 = .ok o2 ∧
+      eraseL o2.kids = eraseL o1.kids ∧ render o2 = render o1 := by
+  obtain ⟨o1, h1, w1, e1⟩ := expand_ok fold hg o hw
+  obtain ⟨o2, h2, w2, e2⟩ := expand_ok fold hg o1 w1
+  have : eraseL o2.kids = eraseL o1.kids := by rw [e2, e1, sEL_idem fold hg]
+  exact ⟨o1, o2, h1, h2, this, render_of_erase w2.1 w1.1 this⟩
+
+/-- **shrink_expand**: shrinking after expanding is shrinking (every Def-expand group, written or produced by
+the expansion, is back in `Def` form); no step fails when no group carries two Def-expand tags. -/
+theorem shrink_expand (o : Obj) (hw : WF o) (hs : shrErrL o.kids = false) :
+    ∃ o1 o2 os, expandG fold true dd o = .ok o1 ∧ shrinkG true o1 = .ok o2 ∧ shrinkG true o = .ok os ∧
+      eraseL o2.kids = eraseL os.kids ∧ render o2 = render os := by
+  obtain ⟨o1, h1, w1, e1⟩ := expand_ok fold hg o hw
+  have hs1 : shrErrL o1.kids = false := by
+    rw [← shrErrL_eraseL, e1, shrErrL_sEL fold hg, shrErrL_eraseL]; exact hs
+  obtain ⟨o2, h2, w2, e2⟩ := shrink_ok o1 w1 hs1
+  obtain ⟨os, h3, w3, e3⟩ := shrink_ok o hw hs
+  have : eraseL o2.kids = eraseL os.kids := by rw [e2, e1, sSL_sEL fold hg, e3]
+  exact ⟨o1, o2, os, h1, h2, h3, this, render_of_erase w2.1 w3.1 this⟩
+
+omit hg in
+/-- an annotation written without Def-expand tags is a fixed point of the shrink rewrite -/
+theorem noDE_fixed : ∀ n, (∀ t ∈ allTags n, t.base ≠ .defExpand) → sSN n = n ∧ shrErrN n = false := by
+  apply node_ind
+  · intro t _; simp [sSN, shrErrN]
+  · intro ks ih h
+    have hk : ∀ k ∈ ks, ∀ t ∈ allTags k, t.base ≠ .defExpand :=
+      fun k hk t ht => h t (by simp only [allTags]; exact mem_allTagsL.2 ⟨k, hk, ht⟩)
+    have hd : deTags ks = [] := by
+      simp only [deTags, List.filter_eq_nil_iff]
+      intro t ht
+      have := hk _ (mem_tagsOf.1 ht) t (by simp [allTags])
+      simpa using this
+    refine ⟨?_, ?_⟩
+    · simp only [sSN, hd, sSL_map, Node.grp.injEq]
+      exact map_eq_self.2 (fun k hx => (ih k hx (hk k hx)).1)
+    · simp only [shrErrN, hd, shrErrL_any, List.length_nil]
+      have : ks.any shrErrN = false := by
+        simp only [List.any_eq_false]; intro k hx; simp [(ih k hx (hk k hx)).2]
+      simp [this]
+
+omit hg in
+theorem noDE_fixedL (ks : List Node) (h : ∀ t ∈ allTagsL ks, t.base ≠ .defExpand) :
+    sSL ks = ks ∧ shrErrL ks = false := by
+  have := noDE_fixed (.grp ks) (by simpa [allTags] using h)
+  simpa [sSN, shrErrN, deTags, show (tagsOf ks).filter (fun t => t.base == .defExpand) = [] from by
+    simp only [List.filter_eq_nil_iff]
+    intro t ht
+    have := h t (mem_allTagsL.2 ⟨.tag t, mem_tagsOf.1 ht, by simp [allTags]⟩)
+    simpa using this] using this
+
+omit hg in
+theorem noDE_erase (ks : List Node) (h : ∀ t ∈ allTagsL ks, t.base ≠ .defExpand) :
+    ∀ t ∈ allTagsL (eraseL ks), t.base ≠ .defExpand := by
+  intro t ht
+  obtain ⟨u, hu, rfl⟩ := mem_allTagsL_eraseL.1 ht
+  exact h u hu
+
+/-- **shrink_expand_original**: for an annotation written in `Def` form, shrinking its expansion restores the
+original (same tree up to bookkeeping, same printout), and neither step fails. -/
+theorem shrink_expand_original (o : Obj) (hw : WF o) (hnd : ∀ t ∈ allTagsL o.kids, t.base ≠ .defExpand) :
+    ∃ o1 o2, expandG fold true dd o = .ok o1 ∧ shrinkG true o1 = .ok o2 ∧
+      eraseL o2.kids = eraseL o.kids ∧ render o2 = render o := by
+  have hs := (noDE_fixedL o.kids hnd).2
+  obtain ⟨o1, o2, os, h1, h2, h3, e, _⟩ := shrink_expand fold hg o hw hs
+  obtain ⟨os', h3', w3, e3⟩ := shrink_ok o hw hs
+  have : os' = os := by rw [h3] at h3'; cases h3'; rfl
+  subst this
+  have hw2 : o2.cyclic = false := by
+    obtain ⟨o1', h1', w1, e1⟩ := expand_ok fold hg o hw
+    have : o1' = o1 := by rw [h1] at h1'; cases h1'; rfl
+    subst this
+    have hs1 : shrErrL o1'.kids = false := by
+      rw [← shrErrL_eraseL, e1, shrErrL_sEL fold hg, shrErrL_eraseL]; exact hs
+    obtain ⟨o2', h2', w2, _⟩ := shrink_ok o1' w1 hs1
+    have : o2' = o2 := by rw [h2] at h2'; cases h2'; rfl
+    subst this; exact w2.1
+  have he : eraseL o2.kids = eraseL o.kids := by
+    rw [e, e3, (noDE_fixedL _ (noDE_erase o.kids hnd)).1]
+  exact ⟨o1, o2, h1, h2, he, render_of_erase hw2 hw.1 he⟩
+
+/-! ### Histories -/
+
+/-- what a history amounts to: nothing, expansion, shrinking, or expansion of the shrunk form -/
+inductive Mode where
+  | id | e | s | se
+deriving DecidableEq, Repr
+
+def next : Mode → Op → Mode
+  | _, .shrink => .s
+  | .id, .expand => .e
+  | .e, .expand => .e
+  | .s, .expand => .se
+  | .se, .expand => .se
+  | m, _ => m
+
+def canon (dd : DefDict) : Mode → List Node → List Node
+  | .id, t => t
+  | .e, t => sEL fold dd t
+  | .s, t => sSL t
+  | .se, t => sEL fold dd (sSL t)
+
+theorem canon_step (m : Mode) (op : Op) (t : List Node) :
+    (match op with
+      | .expand => sEL fold dd (canon fold dd m t)
+      | .shrink => sSL (canon fold dd m t)
+      | _ => canon fold dd m t) = canon fold dd (next m op) t := by
+  cases m <;> cases op <;>
+    simp [canon, next, sEL_idem fold hg, sSL_sEL fold hg, sSL_idem]
+
+theorem history_aux : ∀ (ops : List Op) (o : Obj) (m : Mode) (t : List Node), WF o → shrErrL t = false →
+    eraseL o.kids = canon fold dd m t →
+    ∃ o', runG fold true dd o ops = .ok o' ∧ WF o' ∧ eraseL o'.kids = canon fold dd (ops.foldl next m) t := by
+  intro ops
+  induction ops with
+  | nil => intro o m t hw _ he; exact ⟨o, rfl, hw, he⟩
+  | cons op ops ih =>
+    intro o m t hw ht he
+    have hcs : shrErrL (canon fold dd m t) = false := by
+      cases m <;> simp [canon, shrErrL_sEL fold hg, shrErrL_sSL, ht]
+    have hso : shrErrL o.kids = false := by rw [← shrErrL_eraseL, he]; exact hcs
+    have hstep := canon_step fold hg m op t
+    cases op with
+    | expand =>
+      obtain ⟨o1, h1, w1, e1⟩ := expand_ok fold hg o hw
+      obtain ⟨o', h', w', e'⟩ := ih o1 (next m .expand) t w1 ht (by rw [e1, he]; exact hstep)
+      exact ⟨o', by simp [runG, stepG, h1, h'], w', by simpa using e'⟩
+    | shrink =>
+      obtain ⟨o1, h1, w1, e1⟩ := shrink_ok o hw hso
+      obtain ⟨o', h', w', e'⟩ := ih o1 (next m .shrink) t w1 ht (by rw [e1, he]; exact hstep)
+      exact ⟨o', by simp [runG, stepG, h1, h'], w', by simpa using e'⟩
+    | copy =>
+      obtain ⟨o', h', w', e'⟩ := ih o (next m .copy) t hw ht (by rw [he]; exact hstep)
+      exact ⟨o', by simp [runG, stepG, copy, h'], w', by simpa using e'⟩
+    | str =>
+      obtain ⟨o', h', w', e'⟩ := ih o (next m .str) t hw ht (by rw [he]; exact hstep)
+      exact ⟨o', by simp [runG, stepG, render, hw.1, Except.map, h'], w', by simpa using e'⟩
+    | validate =>
+      obtain ⟨o', h', w', e'⟩ := ih o (next m .validate) t hw ht (by rw [he]; exact hstep)
+      exact ⟨o', by simp [runG, stepG, render, hw.1, Except.map, h'], w', by simpa using e'⟩
+
+/-- **expand_shrink_history**: for every finite sequence of expand / shrink / copy / str / validate on one
+well-formed object (no group with two Def-expand tags) no step fails, the object stays well-formed, and the
+final tree (hence the printout) is: the original if the sequence has no expand/shrink; its expansion if it
+has only expands; its shrunk form if the last of them is a shrink; the expansion of its shrunk form if a
+shrink occurred and the last is an expand. -/
+theorem expand_shrink_history (o : Obj) (hw : WF o) (hs : shrErrL o.kids = false) (ops : List Op) :
+    ∃ o', runG fold true dd o ops = .ok o' ∧ WF o' ∧
+      eraseL o'.kids = canon fold dd (ops.foldl next .id) (eraseL o.kids) ∧
+      render o' = .ok (strL (canon fold dd (ops.foldl next .id) (eraseL o.kids))) := by
+  obtain ⟨o', h, w, e⟩ := history_aux fold hg ops o .id (eraseL o.kids) hw
+    (by rw [shrErrL_eraseL]; exact hs) rfl
+  refine ⟨o', h, w, e, ?_⟩
+  simp only [render, w.1, Bool.false_eq_true, if_false]
+  rw [← strL_eraseL, e]
+
+/-- **expand_shrink_history_original**: for an annotation written in `Def` form the final printout of any
+history is that of `expand o` if the last expand/shrink is an expand, and that of `o` (= `shrink o`) otherwise. -/
+theorem expand_shrink_history_original (o : Obj) (hw : WF o)
+    (hnd : ∀ t ∈ allTagsL o.kids, t.base ≠ .defExpand) (ops : List Op) :
+    ∃ o' oe os, runG fold true dd o ops = .ok o' ∧ expandG fold true dd o = .ok oe ∧
+      shrinkG true o = .ok os ∧ render os = render o ∧
+      render o' = (match ops.foldl next .id with
+        | .id => render o
+        | .s => render os
+        | .e => render oe
+        | .se => render oe) := by
+  obtain ⟨hfix, hs⟩ := noDE_fixedL o.kids hnd
+  have hfe := (noDE_fixedL _ (noDE_erase o.kids hnd)).1
+  obtain ⟨o', h, w, e, _⟩ := expand_shrink_history fold hg o hw hs ops
+  obtain ⟨oe, h1, w1, e1⟩ := expand_ok fold hg o hw
+  obtain ⟨os, h2, w2, e2⟩ := shrink_ok o hw hs
+  have hos : render os = render o := render_of_erase w2.1 hw.1 (by rw [e2, hfe])
+  refine ⟨o', oe, os, h, h1, h2, hos, ?_⟩
+  cases hm : ops.foldl next .id <;> rw [hm] at e <;> simp only [canon, hfe] at e
+  · exact render_of_erase w.1 hw.1 e
+  · exact render_of_erase w.1 w1.1 (by rw [e, e1])
+  · rw [hos]; exact render_of_erase w.1 hw.1 e
+  · exact render_of_erase w.1 w1.1 (by rw [e, e1])
+
+end
+
+/-! ## The unrepaired flag handling, and the Def-expand content check -/
+
+def tRed : Tag := { name := ['R', 'e', 'd'], org := ['r', 'e', 'd'] }
+def tBlue : Tag := { name := ['B', 'l', 'u', 'e'], org := ['b', 'l', 'u', 'e'] }
+def tDefA : Tag := { base := .def_, ext := ['/', 'A'], org := ['d', 'e', 'f', '/', 'a'] }
+def tDeA : Tag := { base := .defExpand, ext := ['/', 'A'], org := ['d', 'e', 'f', '-', 'e', 'x', 'p', 'a', 'n', 'd', '/', 'a'] }
+/-- `(Definition/A, (Red, Blue))` as stored: content sorted to `(Blue, Red)` -/
+def ddA : DefDict := [⟨['A'], ['A'], [.tag tBlue, .tag tRed], false⟩]
+
+/-- **expand_twice_counterexample**: with the original flag handling (`_expanded` never updated by
+`expand_defs`/`shrink_defs`) the history expand, expand, str on `Def/A` fails with RecursionError; the repaired
+code prints `(Def-expand/A,(Blue,Red))` — and a written Def-expand that was queried, shrunk and expanded again
+stays `Def/A` in the original code. -/
+theorem expand_twice_counterexample :
+    (runG id false ddA { kids := [.tag tDefA] } [.expand, .expand, .str]).toOption.isNone = true ∧
+    ((runG id true ddA { kids := [.tag tDefA] } [.expand, .expand, .str]).toOption.map
+        (fun o => String.ofList (strL o.kids))) = some "(Def-expand/A,(Blue,Red))" ∧
+    ((runG id false ddA { kids := [.grp [.tag tDeA, .grp [.tag tBlue, .tag tRed]]] }
+        [.expand, .shrink, .expand]).toOption.map (fun o => String.ofList (strL o.kids))) = some "Def/A" := by
+  decide
+
+section
+variable (fold : Str → Str)
+
+/-- **defexpand_accept_iff**: what `_validate_def_contents` accepts for a Def-expand group with children `ks`:
+the name is defined, the value presence matches, and — repaired code — the sorted group equals the sorted
+expected group `[tag, content[# := v]]` element by element (`==` of tags/groups); the original code compared
+the group as written with the expected group built from the *sorted* stored content. -/
+theorem defexpand_accept_iff (dd : DefDict) (t : Tag) (ks : List Node) :
+    (checkDefExpand fold true dd t (some ks) = [] ↔
+      ∃ cs, expansion fold dd t = .ok cs ∧ eqvL (sortG ks) (sortG (.tag t :: cs)) = true) ∧
+    (checkDefExpand fold false dd t (some ks) = [] ↔
+      ∃ cs, expansion fold dd t = .ok cs ∧ eqvL ks (.tag t :: cs) = true) := by
+  unfold checkDefExpand
+  cases expansion fold dd t with
+  | ok cs =>
+    constructor
+    · by_cases h : eqvL (sortG ks) (sortG (.tag t :: cs)) = true <;> simp [h]
+    · by_cases h : eqvL ks (.tag t :: cs) = true <;> simp [h]
+  | noEntry => simp
+  | mismatch b => cases b <;> simp
+  | internal => simp
+end
+
+/-- **defexpand_order_counterexample**: for `(Definition/A, (Red, Blue))` the group `(Def-expand/A, (Red, Blue))`
+— the definition's own content, a sibling permutation of the expansion — is rejected by the original comparison
+and accepted by the repaired one; so is `((Blue, Red), Def-expand/A)`; a wrong content is rejected by both. -/
+theorem defexpand_order_counterexample :
+    checkDefExpand id false ddA tDeA (some [.tag tDeA, .grp [.tag tRed, .tag tBlue]]) = [.defExpandInvalid] ∧
+    checkDefExpand id true ddA tDeA (some [.tag tDeA, .grp [.tag tRed, .tag tBlue]]) = [] ∧
+    checkDefExpand id false ddA tDeA (some [.grp [.tag tBlue, .tag tRed], .tag tDeA]) = [.defExpandInvalid] ∧
+    checkDefExpand id true ddA tDeA (some [.grp [.tag tBlue, .tag tRed], .tag tDeA]) = [] ∧
+    checkDefExpand id true ddA tDeA (some [.tag tDeA, .grp [.tag tRed]]) = [.defExpandInvalid] := by
+  decide
+
+/-! ## Non-vacuity -/
+
+example : Good ddA := by
+  intro e he
+  simp only [ddA, List.mem_singleton] at he
+  subst he
+  refine ⟨?_, rfl, by simp⟩
+  intro k hk t ht
+  simp only [List.mem_cons, List.not_mem_nil, or_false] at hk
+  rcases hk with rfl | rfl <;> simp only [allTags, List.mem_singleton] at ht <;> subst ht <;> rfl
+
+example : WF { kids := [.tag tDefA] } := wf_fresh [.tag tDefA]
+example : shrErrL [.tag tDefA] = false := by decide
+example : ∀ t ∈ allTagsL [Node.tag tDefA], t.base ≠ .defExpand := by decide
+example : Acceptable { base := .definition, ext := ['/', 'A'] } [.tag { base := .definition, ext := ['/', 'A'] }, .grp [.tag tRed, .tag tBlue]] :=
+  ⟨by decide, by decide, by decide, by decide, by decide, by decide, by decide, by decide⟩
+/-- the model's own acceptance builds `ddA` (up to the `org` texts) from `(Definition/A, (Red, Blue))` -/
+example : ((accept id [] { base := .definition, ext := ['/', 'A'] }
+    [.tag { base := .definition, ext := ['/', 'A'] }, .grp [.tag tRed, .tag tBlue]]).1.map
+      (fun e => (e.key, strL e.content, e.takes))) = [(['A'], "Blue,Red".toList, false)] := by decide
 
 end HedVerif.C09
